@@ -9,5 +9,6 @@ Extraction "model.ml" init step run abs counter geth getb apply_events cinit ain
   fl_resize _allocate search_binary tabfree cls as_is all_fixed
   rinit rstep rrun rcnt getq rc_getrc
   pinit pstep prun pslot cstep crun outstanding
-  get_counter op_pre rstep_df.
+  get_counter op_pre rstep_df
+  step_x run_x cstep_x refuses in_place.
 Cd "..".
